@@ -88,7 +88,9 @@ func checkC06(tier string) int {
 		w0, _ := world.New(params)
 		frng := rand.New(rand.NewSource(hseed * 7))
 		cfg := drive.Cfg{Tag: "c06", Seed: hseed, Blocks: blocks, Params: params, Scripts: allScripts, Scout: true}
-		cfg.Specs = []world.NodeSpec{{Name: "lead", Validator: w0.Vals[0], LogLevel: 1}, {Name: "twin", Validator: w0.Vals[0], LogLevel: 1}}
+		// (a third node receives every block without its first failed transaction only: were that transaction a
+		// no-op, every other transaction of the block, failed ones included, would give the same result)
+		cfg.Specs = []world.NodeSpec{{Name: "lead", Validator: w0.Vals[0], LogLevel: 1}, {Name: "twin", Validator: w0.Vals[0], LogLevel: 1}, {Name: "twin-one", Validator: w0.Vals[0], LogLevel: 1}}
 		// gas limits around what handlers consume: the failure then happens in the fee step, after the handler wrote
 		cfg.FeeFn = func(kind string) *action.Fee {
 			if kind == "OLVM" || frng.Intn(7) != 0 {
@@ -128,8 +130,23 @@ func checkC06(tier string) int {
 			}
 			return specs
 		}
-		var keep map[string]bool
+		var keep, keepOne map[string]bool
 		cfg.PerReplica = func(run *hist.Runner, h int64, idx int, base proto.Recipe, sofar *hist.Block) *proto.Recipe {
+			if idx == 2 {
+				keepOne = map[string]bool{}
+				alt := base
+				alt.Txs = nil
+				dropped := false
+				for _, t := range sofar.Txs {
+					if t.Call.Code != 0 && !dropped {
+						dropped = true
+						continue
+					}
+					alt.Txs = append(alt.Txs, t.Bytes)
+					keepOne[t.Call.TxHash] = true
+				}
+				return &alt
+			}
 			if idx != 1 {
 				return nil
 			}
@@ -152,6 +169,13 @@ func checkC06(tier string) int {
 					r.Count("failed:"+t.Kind, 1)
 				} else {
 					r.Count("ok:"+t.Kind, 1)
+				}
+			}
+			if os.Getenv("DEBUG_C06") != "" { // triage aid
+				for _, t := range blk.Txs {
+					if strings.Contains(t.Note, os.Getenv("DEBUG_C06")) {
+						fmt.Printf("DEBUG h=%d %s code=%d %q %s\n", blk.H, t.Kind, t.Call.Code, t.Note, cut(t.Call.Log, 120))
+					}
 				}
 			}
 			sort.Strings(failed)
@@ -189,6 +213,28 @@ func checkC06(tier string) int {
 				}
 				r.Violate(verdict.Violation{Signature: sig, What: what, Witness: map[string]interface{}{"seed": hseed, "height": blk.H, "txs": sampleTxs(blk), "recipes": run.Recipes()}})
 				return true
+			}
+			if len(failed) > 0 && len(blk.Resp) > 2 {
+				if blk.Resp[2] == nil {
+					r.Violate(verdict.Violation{Signature: "C06/twin-died", What: fmt.Sprintf("history seed %d: the node that got block %d without its first failed transaction died", hseed, blk.H), Witness: map[string]interface{}{"seed": hseed, "log": run.Reps[2].Box.LogTail(2000)}})
+					return true
+				}
+				r.Count("blocks_compared_without_their_first_failed_tx_only", 1)
+				if idx, x, y := hist.FirstDiff(projKeep(blk.Resp[0].Calls, keepOne), projKeep(blk.Resp[2].Calls, nil)); idx >= 0 {
+					method := strings.SplitN(x+" ", " ", 2)[0]
+					first := ""
+					for _, t := range blk.Txs {
+						if t.Call.Code != 0 {
+							first = t.Kind
+							if t.Trait != "" {
+								first += "[" + t.Trait + "]"
+							}
+							break
+						}
+					}
+					r.Violate(verdict.Violation{Signature: "C06/without-first-failed-only/" + strings.ToLower(method) + "/failed:" + first, What: fmt.Sprintf("history seed %d block %d: leader %q | node that got the block without its first failed transaction (%s) %q", hseed, blk.H, x, first, y), Witness: map[string]interface{}{"seed": hseed, "height": blk.H, "txs": sampleTxs(blk), "recipes": run.Recipes()}})
+					return true
+				}
 			}
 			return false
 		}
